@@ -328,6 +328,8 @@ def plan_c07(pid, rng, quick):
         # healthy streams: a well-formed batch on a healthy stream is decoded completely
         for i in range(20 if quick else 1200):
             plan.append(otap.rand_stream(rng, "healthy/%s/%d" % (signal, i), signal, []))
+    # behaviours generated by TLC from the implementation-level specification (StreamSim.tla over Stream.tla)
+    plan.extend(otap.stream_behaviours(150 if quick else 4000, C.seed() * 17 + 3, rng, timeout=300 if quick else 3000))
     return plan
 
 def plan_c14(pid, rng, quick):
